@@ -31,8 +31,9 @@ type Step struct {
 	Global string    `json:"global,omitempty"` // policy option: "" | replace | append | prepend
 	Cfg    *gen.Tree `json:"cfg"`
 	Fault  *Fault    `json:"fault,omitempty"`
-	Fresh  bool      `json:"fresh,omitempty"` // unpack into a newly pre-filled target instead of over the previous result
-	Reuse  bool      `json:"reuse,omitempty"` // unpack the *Config object of the previous step again (Cfg repeats its tree)
+	Fresh  bool      `json:"fresh,omitempty"`  // unpack into a newly pre-filled target instead of over the previous result
+	Reuse  bool      `json:"reuse,omitempty"`  // unpack the *Config object of the previous step again (Cfg repeats its tree)
+	Repeat bool      `json:"repeat,omitempty"` // Cfg repeats the tree of the previous step (informational; with Reuse false a new *Config object is made from it)
 }
 
 // Alias makes two places of the pre-filled target share one slice, map or
